@@ -76,6 +76,11 @@ def fault_snippets(w):
         'internal-label-predeclared': ([';', 'ns _ {', 'wflip_area_start_0:', '}', ';', 'segment 16*w', ';'], 'only', ['wflip_area_start_0']),
         'huge-literal': ([';' + '9' * 5000], 'end', ['literal', 'number', 'digit', 'too', 'long', 'big', 'fit', 'bits', 'range']),
     }
+    # one label statement (one source position) that two expansions resolve to the same name
+    f['dup-label:macro-parameter-twice'] = (['def zz_m l {', 'l:', ';', '}', 'zz_m zz_dup', 'zz_m zz_dup'], 'end', ['zz_dup'])
+    f['dup-label:macro-parameter-rep'] = (['def zz_m l {', 'l:', ';', '}', 'rep(2, zz_i) zz_m zz_dup'], 'end', ['zz_dup'])
+    f['dup-label:macro-parameter-in-macro'] = (['def zz_m l {', 'l:', ';', '}', 'def zz_o @ zz_x {', 'zz_m zz_x', 'zz_m zz_x', '}', 'zz_o'], 'end', ['zz_x'])
+    f['dup-label:global-from-macro-twice'] = (['def zz_m {', '..zz_g:', ';', '}', 'zz_m', 'zz_m'], 'end', ['zz_g'])
     # overlap geometries: the later segment encloses / starts with / ends inside / lies in the reserved tail of the earlier one
     on = ['overlap', 'segment']
     f['overlap:later-encloses-earlier'] = (['segment 1024*w', ';', 'segment 512*w', ';', 'reserve 1024*w'], 'end', on)
@@ -279,8 +284,9 @@ def leftover_loads(out):
     from flipjump.fjm.fjm_reader import Reader
     from flipjump.utils.exceptions import FlipJumpException
     try:
-        r = Reader(out)
-        r.assert_runnable()
+        # the Reader is the loader: a file it accepts is a loaded program image (whether it also holds a first op is asked
+        # separately by the run entry point; the 'no first op' failure is exactly the one whose image has none)
+        Reader(out)
         return True
     except FlipJumpException:
         return False
